@@ -325,6 +325,12 @@ loop:
 		}
 	}
 
+	// The operators signal the end of their stream also when they were stopped by
+	// a cancellation; never return what was gathered so far as a complete result.
+	if err := ctx.Err(); err != nil {
+		return newErrResult(ret, err)
+	}
+
 	// For range Query we expect always a Matrix value type.
 	if q.t == RangeQuery {
 		resultMatrix := make(promql.Matrix, 0, len(series))
